@@ -229,6 +229,9 @@ func execC10(t *testing.T, c *Case, trace bool) Verdict {
 		switch decs[i].act {
 		case "deny", "fail":
 			cb.Ops[i] = Op{K: "skip", S: c.Ops[i].S, Mode: c.Ops[i].K, URI: c.Ops[i].URI}
+			if c.Ops[i].K == "call" && c.Ops[i].Ref != "" {
+				cb.Ops[i].Mode = "chunk" // a further chunk of a call uses that call's request id
+			}
 		case "rewrite":
 			cb.Ops[i].URI = decs[i].newURI
 		}
